@@ -113,6 +113,28 @@ check("C11", "Lean 4 no-leak calculus assembled over the whole solver model (fin
       "Lean kernel; standard axioms; finite real arithmetic: inf/NaN from numpy division by exact zero cannot be exhibited by the model (covered by execution only); hand model tied by sampled correspondence.",
       "DESIGN.md §6 C11")
 
+check("C05", "Lean 4 theorems over the pseudo-angle model (length independence, geometric definitions) + correspondence + geometric oracle",
+      "Proved (Props/C05.lean, real reading): get_virtual_angles is unchanged when the reference vector or the surface normal is multiplied by any positive factor; "
+      "cos 2theta = k_f.k_i; the code's 2 sin(theta) cos(tau) - sin(alpha) IS n.k_f (sin beta); qaz = atan2(k_f.x, k_f.z) away from theta in {0,90}; and the function never raises "
+      "(C11.virtualAngles_total). Model compared with get_virtual_angles on random/special positions with vectors of any length in either frame; the oracle recomputes all ten angles from "
+      "first-principles vectors and requires invariance under every scaling.",
+      "Lean kernel; standard axioms; PARTIAL: psi (eqs 25/28) and betain/betaout equal their geometric definitions on every sampled position but this is not proved; hand model tied by sampled correspondence.",
+      "DESIGN.md §6 C05")
+
+check("C13", "Lean 4 theorems at specification level (forward model and filter invariant / equivariant) + metamorphic oracle on the implementation",
+      "Proved on GENERATED get_hkl / B matrix: (a) B scales as 1/s and get_hkl(UB/s, P, s lambda) = get_hkl(UB, P, lambda); (b) get_hkl(UB, P, lambda/n) = n get_hkl(UB, P, lambda); "
+      "(c) +360 deg on any axis changes nothing and the read-back filter is 360-periodic; (d) U -> Rz(eps) U with phi -> phi + eps gives the same hkl. Metamorphic oracle: for all 185 modes the "
+      "returned sets of the related requests are compared modulo 360 deg, incl. re-mounting the same calculation object in place.",
+      "Lean kernel; standard axioms; PARTIAL: that the solver returns the whole (invariant) solution set is C01 and C03; inputs generic (away from thresholds), numerically singular requests skipped.",
+      "DESIGN.md §6 C13")
+
+check("C12", "Lean 4 theorems about the shape of the model (queries are functions of the calculator record) + deep-snapshot correspondence on query histories",
+      "Theorems (Props/C12.lean): in the model any sequence of queries leaves the calculator record unchanged and the answer to a query is independent of earlier queries — true by the "
+      "functional shape of the model. The assurance for the implementation is the tie: histories of mixed queries (returning, raising, naz modes, the caller editing a Position in place) on one "
+      "object with a deep snapshot before/after every call and every answer compared with a freshly built calculator in the same state.",
+      "Lean kernel; standard axioms; the theorems are about the model's shape; that the Python properties rebuild their dictionaries at every access is a modelling fact carried by the history correspondence.",
+      "DESIGN.md §6 C12")
+
 NOT_APPLICABLE = []   # filled below for properties without a registered check
 
 ALL = ["C%02d" % i for i in range(1, 21)]
